@@ -76,7 +76,7 @@ fn clean_ops(rng: &mut Rng, len: usize, wbits: usize) -> Vec<WOp> {
             55..=59 => WOp::IoWrite((0..rng.below(20)).map(|_| rng.next() as u8).collect()),
             _ => {
                 let c = *rng.pick(&codes);
-                WOp::Code(c, rng.log_uniform_max(c.code().max_value().min(1 << 45)).min(if matches!(c.code(), Code::Rice(_) | Code::Golomb(_)) { 5000 } else { u64::MAX }))
+                WOp::Code(c, rng.log_uniform_max(c.code().max_value()).min(if matches!(c.code(), Code::Rice(_) | Code::Golomb(_)) { 5000 } else { u64::MAX }))
             }
         });
     }
@@ -211,6 +211,38 @@ pub fn transcript(keep: usize, scale: usize) -> Transcript {
                         // the path is not part of the event text: all paths must give the same observations
                         t.ev(&sec, format!("fill {} dst {} n {} -> {} pos {} next {} image {}", f, df, n, show(&res), show(&pos), show(&next), hex(&w.w.delivered().unwrap_or_default())));
                     }
+                }
+            }
+        }
+    }
+    // ---- every code x boundary value grid (incl. the top of the domain) x write method: bytes and read-back ----
+    for e in En::BOTH {
+        for (ci, code) in code_grid(false).into_iter().enumerate() {
+            let sec = format!("codes/{}/{}", e.name(), code.family());
+            let mut vrng = Rng::new(0xC19C + ci as u64);
+            for (vi, v) in value_grid(code, 12, &mut vrng, 3).into_iter().enumerate() {
+                if code_len(code, v) > 1200 {
+                    continue;
+                }
+                for (mi, wop) in super::codes::write_methods(code).into_iter().enumerate() {
+                    let ww = WWord::ALL[(ci + vi + mi) % 5];
+                    let mut w = make_writer(WCfg { e, w: ww, be: WBackend::Rec(None) });
+                    let pre = (vi * 5 + mi * 3) % 67;
+                    let _ = guard(|| w.w.write_bits(0x2aaa_aaaa_aaaa_aaaa & ((1u64 << pre.min(63)) - 1), pre.min(63)));
+                    let ret = guard(|| w.w.write_code(wop, v));
+                    let _ = guard(|| w.w.write_bits(0x155, 9));
+                    let _ = guard(|| w.w.flush());
+                    let bytes = w.w.delivered().unwrap_or_default();
+                    t.ev(&sec, format!("{} {} {} pre {} -> {} bytes {}", code.name(), v, wop.name(), pre.min(63), show(&ret), hex(&bytes)));
+                    // read back with the standard method on a rotating reader kind
+                    let kind = RKind::ALL[(ci + vi) % 5];
+                    let mut img = bytes.clone();
+                    img.resize(img.len().div_ceil(16) * 16 + 16, 0);
+                    let mut r = make_reader(RCfg { e, kind, be: RBackend::MemZ }, &img);
+                    let _ = guard(|| r.r.skip_bits(pre.min(63)));
+                    let val = guard(|| r.r.read_code(CodeOp::Std(code)));
+                    let pos = guard(|| r.r.bit_pos().unwrap());
+                    t.ev(&sec, format!("  read on {} -> {} pos {}", kind.name(), show(&val), show(&pos)));
                 }
             }
         }
